@@ -7,17 +7,26 @@
    - a go statement anywhere in the body needs the option (go_needs_option);
    - every native function the code can call comes from a global or from a
      declaration of a package the importer returned for an imported path
-     (natives_closed); the only other host entry point is the print hook.
+     (natives_closed); the only other host entry point is the print hook;
+   and this holds for EVERY build of a process: for every history of in-place
+   edits of the Globals map and of the members of the importer interleaved
+   with builds, each build is confined with respect to the maps as they are at
+   its call (C19_history_statement), its result is the result of a single
+   build on those contents and does not depend on earlier builds or on how
+   the contents came about (history_contents_only); the compiler keeps no
+   process-wide state between builds (C19_no_cross_build_state, a generated
+   fact: every package level variable and every site that can change one is
+   listed from the sources and classified).
    Only statements, `exact`, and Print Assumptions live here. *)
 From Coq Require Import List NArith Bool.
-From Verif Require Import ScopeM Scope_proofs.
+From Verif Require Import ScopeM Scope_proofs ScopeHistM ScopeHist_proofs Facts_buildstate BuildState_proofs.
 Import ListNotations.
 Open Scope N_scope.
 
 Definition C19_statement : Prop :=
   forall cfg g o, check cfg g = inl o ->
     (o_asked o = map snd (g_imports g) /\
-     Forall (fun ip => exists pkg, c_importer cfg (snd ip) = Some pkg) (g_imports g)) /\
+     Forall (fun ip => exists pkg, c_importer cfg (snd ip) = APkg pkg) (g_imports g)) /\
     (has_go (g_body g) = true -> c_allow_go cfg = true) /\
     Forall (supplied cfg g) (o_natives o).
 
@@ -33,14 +42,78 @@ Print Assumptions C19_resolution_partial.
 
 Theorem C19_imports_from_importer : forall cfg g o, check cfg g = inl o ->
   o_asked o = map snd (g_imports g) /\
-  Forall (fun ip => exists pkg, c_importer cfg (snd ip) = Some pkg) (g_imports g).
+  Forall (fun ip => exists pkg, c_importer cfg (snd ip) = APkg pkg) (g_imports g).
 Proof. exact imports_from_importer. Qed.
 Print Assumptions C19_imports_from_importer.
 
 Theorem C19_unknown_import_fails : forall cfg g form p,
-  In (form, p) (g_imports g) -> c_importer cfg p = None -> exists e, check cfg g = inr e.
+  In (form, p) (g_imports g) -> c_importer cfg p = ANone -> exists e, check cfg g = inr e.
 Proof. exact unknown_import_fails. Qed.
 Print Assumptions C19_unknown_import_fails.
+
+(* an importer error is a veto as well *)
+Theorem C19_unanswered_import_fails : forall cfg g form p,
+  In (form, p) (g_imports g) -> (forall pkg, c_importer cfg p <> APkg pkg) -> exists e, check cfg g = inr e.
+Proof. exact unanswered_import_fails. Qed.
+Print Assumptions C19_unanswered_import_fails.
+
+(* native.CombinedImporter: a member that answers with an error, the earlier
+   members not having the path, makes the import fail whatever the later
+   members have; when the build succeeds every package comes from the first
+   member that has it *)
+Theorem C19_combined_veto : forall cfg g form p pre m post,
+  c_importer cfg = combined (pre ++ m :: post) ->
+  Forall (fun m' => m' p = ANone) pre -> m p = AErr ->
+  In (form, p) (g_imports g) -> exists e, check cfg g = inr e.
+Proof. exact combined_veto_fails. Qed.
+Print Assumptions C19_combined_veto.
+
+Theorem C19_combined_first_member : forall cfg g o ms,
+  c_importer cfg = combined ms -> check cfg g = inl o ->
+  Forall (fun ip => exists pre m post pkg, ms = pre ++ m :: post /\
+            Forall (fun m' => m' (snd ip) = ANone) pre /\ m (snd ip) = APkg pkg /\
+            c_importer cfg (snd ip) = APkg pkg) (g_imports g).
+Proof. exact combined_package_from_first. Qed.
+Print Assumptions C19_combined_first_member.
+
+(* ---- every build of a process ---- *)
+
+Definition C19_history_statement : Prop :=
+  forall (c : cross) (st : hstate) (h : list event),
+    (* each build returns what a single build returns on the maps as they are at its call *)
+    run c st h = map build_result (builds st h) /\
+    (* and is confined with respect to those maps *)
+    Forall2 confined (builds st h) (run c st h).
+
+Theorem C19_history_partial : C19_history_statement.
+Proof. intros c st h. split; [exact (run_builds c st h)|exact (history_confined c st h)]. Qed.
+Print Assumptions C19_history_partial.
+
+(* builds made on maps with the same contents give the same results, whatever
+   happened before in either process *)
+Theorem C19_history_contents_only : forall c1 c2 st1 st2 h1 h2,
+  Forall2 build_equiv (builds st1 h1) (builds st2 h2) -> run c1 st1 h1 = run c2 st2 h2.
+Proof. exact history_contents_only. Qed.
+Print Assumptions C19_history_contents_only.
+
+Theorem C19_single_build_contents_only : forall c1 c2 g, cfg_equiv c1 c2 -> check c1 g = check c2 g.
+Proof. exact check_ext. Qed.
+Print Assumptions C19_single_build_contents_only.
+
+(* generated fact: the compiler has no process-wide state that a build could
+   leave to the next one; every changeable package level variable and every
+   write site is classified, no classification is stale *)
+Theorem C19_no_cross_build_state :
+  cross_build_vars = [] /\
+  forallb var_classified gen_package_vars = true /\
+  forallb var_readonly_ok gen_package_vars = true /\
+  forallb write_classified gen_package_var_writes = true /\
+  gen_stale_buildstate_entries = 0.
+Proof.
+  split; [exact no_cross_build_state|]. split; [exact vars_classified_ok|].
+  split; [exact readonly_vars_have_no_write|]. split; [exact writes_classified_ok|exact no_stale_buildstate_entry].
+Qed.
+Print Assumptions C19_no_cross_build_state.
 
 Theorem C19_go_needs_option : forall cfg g o, check cfg g = inl o -> has_go (g_body g) = true -> c_allow_go cfg = true.
 Proof. exact go_needs_option. Qed.
@@ -53,8 +126,8 @@ Print Assumptions C19_natives_closed.
 (* non-vacuity: a configuration and a program that builds, uses a go statement,
    a package function, a dot-imported one, a global and println *)
 Definition ex_cfg : config :=
-  {| c_importer := fun p => if p =? 10 then Some {| p_name := 20; p_decls := [(1000, 501); (1001, 502)] |}
-                            else if p =? 11 then Some {| p_name := 21; p_decls := [(1002, 503)] |} else None;
+  {| c_importer := fun p => if p =? 10 then APkg {| p_name := 20; p_decls := [(1000, 501); (1001, 502)] |}
+                            else if p =? 11 then APkg {| p_name := 21; p_decls := [(1002, 503)] |} else ANone;
      c_globals := [(30, 504)];
      c_allow_go := true;
      c_template := true |}.
@@ -72,3 +145,34 @@ Example C19_example :
   check {| c_importer := c_importer ex_cfg; c_globals := c_globals ex_cfg; c_allow_go := true; c_template := false |} ex_prog = inr EUndefined /\
   check ex_cfg {| g_imports := [(IDefault, 12)]; g_funcs := []; g_body := [] |} = inr (ECannotFindPackage 12).
 Proof. vm_compute. repeat split; reflexivity. Qed.
+
+(* non-vacuity of the history theorems: the Globals map holds readSecret (30)
+   and fetch (31); a template that calls both builds; then readSecret is
+   deleted and version (32) added (the length stays 2) and fetch is replaced by
+   another function: the same template no longer builds, a template calling
+   fetch and version runs the new functions only.  The importer is a combined
+   importer whose first member vetoes path 12, which the second member has. *)
+Definition ex_pkg12 : package := {| p_name := 22; p_decls := [(1000, 510)] |}.
+Definition ex_state : hstate :=
+  {| h_globals := [(30, 601); (31, 602)];
+     h_members := [ (fun p => if p =? 12 then AErr else ANone); (fun p => if p =? 12 then APkg ex_pkg12 else ANone) ] |}.
+Definition ex_t1 : prog := {| g_imports := []; g_funcs := []; g_body := [SCall (RId 30); SCall (RId 31)] |}.
+Definition ex_t2 : prog := {| g_imports := []; g_funcs := []; g_body := [SCall (RId 31); SCall (RId 32)] |}.
+Definition ex_t3 : prog := {| g_imports := [(IDefault, 12)]; g_funcs := []; g_body := [SCall (RSel 22 1000)] |}.
+Definition ex_history : list event :=
+  [ EvBuild false true ex_t1;
+    EvEdit (EdGlobalDel 30); EvEdit (EdGlobalSet 32 603); EvEdit (EdGlobalSet 31 604);
+    EvBuild false true ex_t1; EvBuild false true ex_t2;
+    EvBuild false true ex_t3;
+    EvEdit (EdMemberSet 0 12 ANone);
+    EvBuild false true ex_t3 ].
+
+Example C19_history_example :
+  run tt ex_state ex_history =
+    [ inl {| o_natives := [601; 602]; o_asked := []; o_prints := 0 |};
+      inr EUndefined;
+      inl {| o_natives := [604; 603]; o_asked := []; o_prints := 0 |};
+      inr (EImporterError 12);
+      inl {| o_natives := [510]; o_asked := [12]; o_prints := 0 |} ] /\
+  length (h_globals ex_state) = length (h_globals (apply_edit (apply_edit ex_state (EdGlobalDel 30)) (EdGlobalSet 32 603))).
+Proof. vm_compute. split; reflexivity. Qed.
